@@ -88,7 +88,7 @@ def gc_scenario(rng, n_objs, n_funcs, p_edge=0.25, n_sets=1, p_set_member=0.3, p
         sets[sname] = {"members": members, "referenced_by": refs,
                        "member_points_to": {o: [g for g in funcs if rng.random() < 0.2] for o in members}}
     return {"funcs": funcs, "obj_of": obj_of, "edges": edges, "datas": datas, "data_edges": data_edges,
-            "sets": sets, "n_objs": n_objs, "entry": "f0"}
+            "sets": sets, "n_objs": n_objs, "entry": "f0", "none_relocs": rng.random() < 0.5}
 
 
 def gc_reach(scn):
@@ -131,8 +131,13 @@ def gc_emit_x86(scn, d):
         t = [f'.section .text.{f},"ax",@progbits', f".globl {f}", f".type {f},@function", f"{f}:"]
         if f == scn["entry"]:
             t += [".globl _start", "_start:"]
-        for g in scn["edges"][f]:
-            t.append(f"    call {g}")
+        for gi, g in enumerate(scn["edges"][f]):
+            # every third edge is a dependency-only relocation (the documented idiom for keeping a
+            # section alive without referencing it from code): it must count for GC like any other
+            if scn.get("none_relocs") and (sum(map(ord, f + g)) % 3 == 0):
+                t.append(f"    .reloc ., R_X86_64_NONE, {g}")
+            else:
+                t.append(f"    call {g}")
         for dn in scn["data_edges"].get(f, []):
             t.append(f"    lea {dn}(%rip), %rax")
         for sname, s in scn["sets"].items():
